@@ -577,6 +577,13 @@ theorem C17_rule_argument_private_since_fix (ss : Schemas) (p : Path) (c : ArgCe
   · simp [VValue.asIR, VValue.asIRPreFix, AValue.mapCells, zeroCell]
   · simp [VValue.asIRPreFix]
 
+/-- `struct_fields_as_options` after `map_to_index`: the new options are built around a path that
+    indexes with the argument `key`, which none of them declares (sibling of
+    `C17_seq_counterexample_unfold_after_index`) -/
+theorem C17_seq_counterexample_sf_opts_after_index :
+    (WTs wMapIndexSfOpts.ss (getOk (fromAST wMapIndexSfOpts.ss)) = true) ∧
+    isOk wMapIndexSfOpts.run = true ∧ WTs wMapIndexSfOpts.ss (getOk wMapIndexSfOpts.run) = false := by decide +kernel
+
 /-! ## frame at the level of the whole rewriter -/
 
 /-- the property at full strength for the smallest case — no rule at all: nothing changes -/
